@@ -59,6 +59,8 @@ func buildTar(base string, es []ent) (*tar.Reader, error) {
 		case "l":
 			h.Typeflag = tar.TypeLink
 			h.Linkname = e.target
+		case "q": // a type the extractor does nothing for: its path is checked, nothing is created (not even its parents)
+			h.Typeflag = []byte{tar.TypeFifo, tar.TypeChar, tar.TypeBlock}[int(e.mode)%3]
 		}
 		if err := w.WriteHeader(h); err != nil {
 			return nil, err
@@ -370,6 +372,9 @@ func gen(r *hx.Rand, n int) []string {
 			if r.Bool() {
 				abs, target = false, "../"+target
 			}
+			if kind == "tar" && r.Chance(1, 3) { // an ignored entry (FIFO, device) under the name that is about to become a link
+				ops = append(ops, fmt.Sprintf("e q %s/%s %d 0 0 -", link, []string{"x", "made", "deep"}[r.Intn(3)], 644+r.Intn(3)))
+			}
 			if r.Chance(1, 3) {
 				ops = append(ops, fmt.Sprintf("pre s dst/%s %s %s", link, hx.B2i(abs), target))
 			} else {
@@ -425,6 +430,10 @@ func gen(r *hx.Rand, n int) []string {
 				default:
 					depth++
 				}
+			}
+			if kind == "tar" && r.Chance(1, 12) {
+				ops = append(ops, fmt.Sprintf("e q %s %d 0 0 -", name, 644+r.Intn(3)))
+				continue
 			}
 			switch x := r.Intn(10); {
 			case x < 4:
